@@ -9,8 +9,6 @@ import orc
 def run(res, replay=None):
     # structural tie of the propagation loops (_accumulate, cdf) of phasegen/distributions.py: translate the CURRENT source and re-check proofs/GenLoopsEquiv.v
     import translate_step; (res.proof is not None) and translate_step.run(res.proof, pid=res.pid, tie='loops')
-    # structural tie of _accumulate (the source-level transfer of moments along the projection is about the generated function)
-    import translate_step; (res.proof is not None) and translate_step.run(res.proof, pid=res.pid, tie='loops')
     rng = random.Random(res.seed)
     res.rule = ('projection stream: one population, n = 3..8 (thorough: ..10), Kingman / Beta / Dirac with random dyadic '
                 'parameters, random size histories (1-4 epochs), random end time or the common default horizon: the '
